@@ -653,7 +653,15 @@ void get_argspec_string(struct uftrace_task_reader *task, char *args, size_t len
 			sym = task_find_sym_addr(sessions, task, task->rstack->time,
 						 (uint64_t)val.i);
 
-			if (sym) {
+			if (sym && needs_json) {
+				/* the name goes into a JSON string: escape it like a function name */
+				char *p = sym->name;
+
+				print_args(&args, &len, "&");
+				while (*p)
+					print_json_escaped_char(&args, &len, *p++);
+			}
+			else if (sym) {
 				print_args(&args, &len, "%s", color_symbol);
 				if (format_mode == FORMAT_HTML)
 					print_args(&args, &len, "&amp;%s", sym->name);
